@@ -7,6 +7,23 @@ from warnings import warn
 from .core import BigSMILESbase
 
 
+def find_mixture_start(text, start=0):
+    """
+    Position of the next '.|' that opens a mixture description, or -1.
+
+    A '.|' inside a bond descriptor, like the end of the weight in `[$|2.|]`, is part of a number.
+    """
+    depth = 0
+    for i in range(start, len(text) - 1):
+        if text[i] == "[":
+            depth += 1
+        elif text[i] == "]":
+            depth = max(depth - 1, 0)
+        elif depth == 0 and text[i] == "." and text[i + 1] == "|":
+            return i
+    return -1
+
+
 class Mixture(BigSMILESbase):
     """
     Class to describe mixtures of systems.
